@@ -50,4 +50,5 @@ Conf_Inventory == Ok => C.conv.inv = D.inv
 
 \* ---- tags (ConvertTags.cfg): feature classes for finding keys, evaluated by TLC on the failing cases only ---------
 Tag_NothingLost == D.lost = {}
+Tag_NoOneRowTable == D.onerow = {}
 =============================================================================
